@@ -25,8 +25,15 @@ def main(argv):
         raise
     except Exception:
         traceback.print_exc()
-        print("CHECKER-ERROR property=%s checker crashed (never a violation)" % pid)
-        return 3
+        from . import common
+        rc = 3
+        try:
+            rc = common.finish_after_crash(traceback.format_exc())
+        except Exception:
+            traceback.print_exc()
+        if rc == 3:
+            print("CHECKER-ERROR property=%s checker crashed (never a violation)" % pid)
+        return rc
 
 
 if __name__ == "__main__":
